@@ -168,6 +168,16 @@ Proof.
 Qed.
 Print Assumptions table_keeps_text_tagged.
 
+(* where a cell's (visible) line sits in a line of the tag-free table: the line of a row is, column after column,
+   cell prefix ++ padding ++ the cell line ++ padding ++ cell suffix ++ separator (row_line, by definition) *)
+Theorem cell_line_in_its_column : forall pre suf pad vc vr i c cells w cols a al,
+  row_line pre suf pad vc vr i (c :: cells) (w :: cols) (a :: al)
+  = (match pad_cell pad a w (nth i c []) with Some x => pre ++ x ++ suf ++ (match cells with [] => vr | _ => vc end) | None => [] end)
+    ++ row_line pre suf pad vc vr i cells cols al
+  /\ forall x, pad_cell pad a w (nth i c []) = Some x -> exists k1 k2, x = rep pad k1 ++ nth i c [] ++ rep pad k2.
+Proof. intros. split; [reflexivity|]. intros x H. exact (pad_cell_holds _ _ _ _ _ H). Qed.
+Print Assumptions cell_line_in_its_column.
+
 (* ---- a concrete tagged table:  <b>bold</b> | <fg=red>x</>  over  plain | y,  ascii style, width 30 ---- *)
 Definition b_sty : cstyle := {| c_tag := Some [98%N]; c_fg := None; c_bg := None; c_bold := true; c_italic := false; c_dark := false;
   c_underlined := false; c_blinking := false; c_inverse := false; c_hidden := false |}.
